@@ -34,5 +34,24 @@ Fixpoint lookup_str (t : list (string * string)) (k : string) : option string :=
 Definition is_true_literal (e : expr) : bool := match e with EName _ f => String.eqb f "builtins.True" | _ => false end.
 Definition is_false_literal (e : expr) : bool := match e with EName _ f => String.eqb f "builtins.False" | _ => false end.
 Definition is_bool_literal (e : expr) : bool := is_true_literal e || is_false_literal e.
-(* NameExpr.name, read after the caller has narrowed the node to a NameExpr *)
-Definition name_of (e : expr) : string := match e with EName n _ => n | _ => "" end.
+(* RefExpr.name / RefExpr.fullname (NameExpr and MemberExpr are the RefExpr classes), read after the caller has
+   narrowed the node to one of them; fullname "" stands for None *)
+Definition name_of (e : expr) : string := match e with EName n _ => n | EMember _ n _ => n | _ => "" end.
+Definition ref_fullname (e : expr) : string := match e with EName _ f => f | EMember _ _ f => f | _ => "" end.
+
+(* refurb/checks/common.py normalize_os_path (transliterated; the translator pins the source it was read from):
+   the first dotted segment, when it begins with genericpath / ntpath / posixpath, is replaced by os.path *)
+Fixpoint split_dot (s : string) : string * option string :=
+  match s with
+  | EmptyString => (EmptyString, None)
+  | String c r =>
+      if Ascii.eqb c "."%char then (EmptyString, Some r)
+      else let (h, t) := split_dot r in (String c h, t)
+  end.
+
+Definition normalize_os_path (m : string) : string :=
+  if String.eqb m "" then "" else
+  let (first, rest) := split_dot m in
+  if String.prefix "genericpath" first || String.prefix "ntpath" first || String.prefix "posixpath" first then
+    match rest with None => "os.path" | Some r => "os.path." ++ r end
+  else m.
